@@ -66,7 +66,20 @@ def _roles(ctx: Ctx) -> None:
             if f.name in ("to_hashable", "try_to_hashable"):
                 continue
             rets = [r.value for r in walk_no_nested(f.node) if isinstance(r, ast.Return) and r.value is not None]
-            if rets and all(isinstance(Defs(f).resolve(v), ast.Call) and _last(dotted(Defs(f).resolve(v).func)) in sort for v in rets):
+            d_f = Defs(f)
+
+            def in_sorted_order(v: ast.AST) -> bool:
+                """The value is a sorter's result, or is built by walking ONE sorter's result (an argsort: `[items[i] for i in order]`)."""
+                r = d_f.resolve(v)
+                if isinstance(r, ast.Call) and _last(dotted(r.func)) in sort:
+                    return True
+                if isinstance(r, ast.Call) and dotted(r.func) in ("list", "tuple") and len(r.args) == 1:
+                    return in_sorted_order(r.args[0])
+                if isinstance(r, (ast.ListComp, ast.GeneratorExp)) and len(r.generators) == 1 and not r.generators[0].ifs:
+                    return in_sorted_order(r.generators[0].iter)
+                return False
+
+            if rets and all(in_sorted_order(v) for v in rets):
                 sort.add(f.name)
             # a converter applies a converter inside a comprehension / loop over its argument
             if any(isinstance(c, ast.Call) and _last(dotted(c.func)) in conv for it in iterations(f.node) for c in ast.walk(it["node"])) and f.params and not f.name.startswith("__"):
@@ -84,6 +97,10 @@ def _roles(ctx: Ctx) -> None:
     CONVERTERS.update(conv)
     SORTERS.clear()
     SORTERS.update(sort)
+
+
+def _module_funcs(ctx: Ctx) -> set[str]:
+    return {f.name for f in ctx.prog.functions_in(MOD) if f.cls is None}
 
 
 def _last(name: str) -> str:
@@ -363,7 +380,10 @@ def rule_order_and_recursion(ctx: Ctx) -> None:  # noqa: C901, PLR0912
         for t in types:
             if t in UNORDERED:
                 n3 += 1
-                ctx.add("3-order", fn, ret, sorted_here, f"unordered `{t}` is canonically ordered" if sorted_here else f"unordered `{t}` is keyed in iteration order: equal values get different keys", key=f"order {t}")
+                # a violation needs complete visibility: every function of the module that the payload goes through is classified
+                opaque = [c for e in exprs for c in ast.walk(e) if isinstance(c, ast.Call) and isinstance(c.func, ast.Name) and c.func.id in _module_funcs(ctx) and c.func.id not in CONVERTERS | SORTERS]
+                ctx.tri("3-order", fn, ret, sorted_here, not sorted_here and not opaque, f"unordered `{t}` is canonically ordered", f"unordered `{t}` is keyed in iteration order: equal values get different keys",
+                        f"`{t}` goes through `{opaque[0].func.id if opaque else ''}`, which is neither a recognised sorter nor converter", key=f"order {t}")
             elif t in ORDERED:
                 n3 += 1
                 ctx.add("3-order", fn, ret, not sorted_here, f"order-significant `{t}` keeps its order" if not sorted_here else f"order-significant `{t}` is sorted: values differing in order collide", key=f"order {t}")
